@@ -299,19 +299,143 @@ pub fn diff(a: &Obs, b: &Obs) -> Option<String> {
     None
 }
 
+/// What the connection has been through before the reply under test arrives on it: the typed
+/// decoders are checked on connections with a past, not only on fresh ones.
+#[derive(Clone, Debug, Default, PartialEq, Eq, Serialize, Deserialize)]
+pub struct History {
+    /// that many distinct field names were received earlier (they sit in the connection's key cache)
+    pub distinct_keys: u16,
+    /// the field names of the reply under test were received earlier (with other values)
+    pub same_keys_first: bool,
+    /// an earlier response contained one line of that many KiB (the receive buffer has grown)
+    pub blowup_kib: u16,
+}
+
+impl History {
+    pub fn is_empty(&self) -> bool {
+        *self == History::default()
+    }
+
+    /// (bytes of the earlier responses, how many responses these are)
+    fn render(&self, upcoming: &[u8]) -> (Vec<u8>, usize) {
+        let mut out = Vec::new();
+        let mut n = 0;
+        if self.distinct_keys > 0 {
+            for i in 0..self.distinct_keys as usize {
+                let c = |d: usize| (b'a' + (d % 26) as u8) as char;
+                out.extend_from_slice(format!("hq{}{}{}: {i}\n", c(i / 676), c(i / 26), c(i)).as_bytes());
+            }
+            out.extend_from_slice(b"OK\n");
+            n += 1;
+        }
+        if self.same_keys_first {
+            let mut seen: Vec<&[u8]> = Vec::new();
+            for line in upcoming.split(|b| *b == b'\n') {
+                if let Some(p) = line.windows(2).position(|w| w == b": ") {
+                    let k = &line[..p];
+                    if !k.is_empty() && k != b"binary" && k != b"OK" && k != b"ACK" && k != b"list_OK" && k.iter().all(|b| b.is_ascii_alphabetic() || *b == b'_' || *b == b'-') && !seen.contains(&k) {
+                        seen.push(k);
+                        out.extend_from_slice(k);
+                        out.extend_from_slice(b": earlier\n");
+                    }
+                }
+            }
+            out.extend_from_slice(b"OK\n");
+            n += 1;
+        }
+        if self.blowup_kib > 0 {
+            out.extend_from_slice(b"blow: ");
+            out.resize(out.len() + self.blowup_kib as usize * 1024, b'x');
+            out.extend_from_slice(b"\nOK\n");
+            n += 1;
+        }
+        (out, n)
+    }
+}
+
+pub fn history_strategy() -> impl proptest::strategy::Strategy<Value = History> {
+    use proptest::prelude::*;
+    prop_oneof![
+        10 => Just(History::default()),
+        3 => (prop_oneof![1..40u16, 250..262u16, 1020..1030u16, 1..1500u16], any::<bool>()).prop_map(|(distinct_keys, same_keys_first)| History { distinct_keys, same_keys_first, blowup_kib: 0 }),
+        2 => Just(History { distinct_keys: 0, same_keys_first: true, blowup_kib: 0 }),
+        1 => (prop_oneof![Just(70u16), Just(1100), Just(2100), Just(4200)], 0..300u16, any::<bool>()).prop_map(|(blowup_kib, distinct_keys, same_keys_first)| History { distinct_keys, same_keys_first, blowup_kib }),
+    ]
+}
+
+thread_local! {
+    static HISTORY: std::cell::RefCell<History> = std::cell::RefCell::new(History::default());
+}
+
+/// Runs `f` with `parse_all` putting `h` in front of every stream it parses (on the same connection).
+pub fn with_history<T>(h: &History, f: impl FnOnce() -> T) -> T {
+    struct Reset;
+    impl Drop for Reset {
+        fn drop(&mut self) {
+            HISTORY.with(|c| *c.borrow_mut() = History::default());
+        }
+    }
+    HISTORY.with(|c| *c.borrow_mut() = h.clone());
+    let _reset = Reset;
+    f()
+}
+
+/// A case plus the history of the connection it is decoded on (flattened: replay files written before
+/// the history dimension existed still load).
+#[derive(Clone, Debug, Serialize, Deserialize)]
+pub struct OnUsedConnection<C> {
+    #[serde(flatten)]
+    pub case: C,
+    #[serde(default)]
+    pub history: History,
+    /// picks how the command object whose `response` does the decoding was built (windows, ranges,
+    /// sort keys, ...): the parameters a command was sent with must not change how its reply decodes
+    #[serde(default)]
+    pub variant: u32,
+}
+
+pub fn on_used_connection<C: std::fmt::Debug + Clone + 'static>(
+    inner: impl proptest::strategy::Strategy<Value = C> + 'static,
+) -> proptest::strategy::BoxedStrategy<OnUsedConnection<C>> {
+    use proptest::prelude::*;
+    (inner, history_strategy(), prop_oneof![2 => Just(0u32), 3 => 0..64u32])
+        .prop_map(|(case, history, variant)| OnUsedConnection { case, history, variant })
+        .boxed()
+}
+
+impl<C> OnUsedConnection<C> {
+    pub fn classify(&self, r: &mut crate::core::CaseResult) {
+        r.class_if(!self.history.is_empty(), "connection_with_history");
+        r.class_if(self.history.distinct_keys >= 255, "history_255plus_distinct_keys");
+        r.class_if(self.history.same_keys_first, "history_same_keys_seen_before");
+        r.class_if(self.history.blowup_kib >= 1024, "history_buffer_grown_past_1MiB");
+        r.class_if(self.variant != 0, "command_built_with_parameters");
+    }
+}
+
 /// Parse a complete, well-formed stream with the real blocking connection and hand out the real
-/// `Response` objects (used where a check needs `Frame`s, not observations).
+/// `Response` objects (used where a check needs `Frame`s, not observations). The responses of the
+/// thread's current `History` (if any) are received first on the same connection and dropped.
 pub fn parse_all(stream: &[u8]) -> Result<Vec<Response>, String> {
-    let st = state(GREETING, stream, &Seg::Whole);
+    let h = HISTORY.with(|c| c.borrow().clone());
+    let (mut full, skip) = if h.is_empty() { (Vec::new(), 0) } else { h.render(stream) };
+    full.extend_from_slice(stream);
+    let st = state(GREETING, &full, &Seg::Whole);
     let mut conn = Connection::connect(ChunkReader(st)).map_err(|e| format!("connect: {e:?}"))?;
     let mut out = Vec::new();
     loop {
         match conn.receive() {
             Ok(Some(r)) => out.push(r),
-            Ok(None) => return Ok(out),
-            Err(e) => return Err(format!("after {} responses: {e:?}", out.len())),
+            Ok(None) => {
+                if out.len() < skip {
+                    return Err(format!("{} responses, but {skip} earlier ones were sent before the one under test", out.len()));
+                }
+                out.drain(..skip);
+                return Ok(out);
+            }
+            Err(e) => return Err(format!("after {} responses ({skip} of them earlier traffic): {e:?}", out.len())),
         }
-        if out.len() > stream.len() / 3 + 4 {
+        if out.len() > stream.len() / 3 + 4 + skip {
             return Err("no progress".into());
         }
     }
